@@ -142,7 +142,12 @@ func writeJSON(path string, v interface{}) {
 	if err == nil && string(old) == string(data) {
 		return
 	}
-	if err := os.WriteFile(path, data, 0o644); err != nil {
+	// atomic replacement: other checks may be reading the file
+	tmp := path + ".tmp"
+	if err := os.WriteFile(tmp, data, 0o644); err != nil {
+		fatal(err)
+	}
+	if err := os.Rename(tmp, path); err != nil {
 		fatal(err)
 	}
 }
